@@ -223,6 +223,14 @@ def check(ctx, rep):
         # and the aborted edge reports Completed without polling
         comp = [bb for bb, i, s in rt.stmts('assign') if s['rv']['k'] == 'agg' and s['rv'].get('variant') == 'Completed' and s['d']['l'] == 0]
         ok = ok and any(polls[0][0] not in rt.reachable([te[1]]) and c in rt.reachable([te[1]]) for c in comp)
+    if len(polls) == 1 and len(abts) == 1:
+        # ... for EVERY poll: a poll is never followed by another poll of the task without the aborted test in between (an immediate
+        # re-poll of a task that woke itself would resume work that was aborted during its own poll)
+        pb_, ab_ = polls[0][0], abts[0][0]
+        rep.expect('R06.a', pb_ not in rt.reachable_after(pb_, removed_blocks=[ab_]), 'run_task|every-poll-tests-abort',
+                   'no path leads from one poll of the task to the next without the is_aborted() test',
+                   'Command::run_task can poll a task again without testing its aborted flag in between (a re-poll loop): a task aborted while it '
+                   'was being polled is resumed past its next await and keeps producing effects and events')
     rep.expect('R06.a', ok, 'run_task|poll-needs-not-aborted', 'Future::poll of task.future is reachable only when is_aborted() is false; the aborted edge returns Completed',
                'Command::run_task can poll a task whose abort flag is set (or no longer reports it as completed)')
     # R06.b / R06.c
